@@ -117,6 +117,78 @@ fn c08(replay: Option<(usize, usize, usize)>) -> (bool, String, String) {
     (false, "null".into(), "grid gates{1,2,3,4,8} x |L|,|R| in 0..6, all prefixes".into())
 }
 
+// ---- C07: batches agree with the conjunction of the individual verdicts ----
+fn c07() -> (bool, String, String) {
+    let pc = PedersenGens::<Affine>::default();
+    let bp = BulletproofGens::<Affine>::new(64, 1);
+    // (gates, tamper): tamper 0 = honest, 1 = proof of another instance size, 2 = wrong commitment
+    let cases: Vec<Vec<(usize, u8)>> = vec![
+        vec![(1, 0)], vec![(3, 0)], vec![(5, 0)], vec![(2, 0), (5, 0)], vec![(16, 0), (20, 0), (2, 0)], vec![(3, 0), (5, 0), (16, 0)],
+        vec![(4, 1)], vec![(4, 2)], vec![(4, 0), (4, 1)], vec![(4, 1), (4, 0)], vec![(2, 0), (8, 2), (3, 0)], vec![(2, 0), (3, 0), (8, 1)],
+    ];
+    for (ci, case) in cases.iter().enumerate() {
+        let mut proofs = vec![];
+        for (g, t) in case.iter() {
+            let (pf, c) = match prove(*g, 0, 64, 70 + ci as u64) { Ok(x) => x, Err(e) => return (true, format!("{}", ci), format!("prove failed {:?}", e)) };
+            let pf = if *t == 1 { prove(2 * *g + 1, 0, 64, 71).unwrap().0 } else { pf };
+            let c = if *t == 2 { pc.commit(Fr::from(4u64), Fr::from(9u64)) } else { c };
+            proofs.push((pf, c, *g));
+        }
+        let singles: Vec<bool> = proofs.iter().map(|(pf, c, g)| verify(pf, *c, *g, 0, 64).is_ok()).collect();
+        let all = singles.iter().all(|b| *b);
+        let res = catch_unwind(AssertUnwindSafe(|| {
+            let mut ts: Vec<Transcript> = proofs.iter().map(|_| Transcript::new(b"verif-witness")).collect();
+            let mut vs = vec![];
+            for (t, (pf, c, g)) in ts.iter_mut().zip(proofs.iter()) {
+                let mut v = Verifier::<Affine, _>::new(t);
+                let var = v.commit(*c);
+                let _ = build(&mut v, var, *g, 0);
+                vs.push((v, pf));
+            }
+            let mut r = rng(7);
+            batch_verify(&mut r, vs, &pc, &bp).is_ok()
+        }));
+        match res {
+            Err(_) => return (true, format!("{}", ci), format!("batch_verify panicked on batch {:?} (gates, tamper)", case)),
+            Ok(b) if b != all => return (true, format!("{}", ci), format!("batch {:?} (gates, tamper): batch verdict {} but individual verdicts {:?}", case, b, singles)),
+            _ => {}
+        }
+    }
+    (false, "null".into(), "12 batches of 1..3 instances with 1..20 gates (non-powers of two included), honest / wrong-size / wrong-commitment members at every position".into())
+}
+
+// ---- C12: aggregated views are party-major prefixes; growth history does not matter; no repeated generator ----
+fn c12() -> (bool, String, String) {
+    let full = BulletproofGens::<Affine>::new(8, 4);
+    // reference: the full-capacity view (8 is the capacity, so it is the plain party-major concatenation of the rows)
+    let all_g: Vec<Affine> = full.G(8, 4).cloned().collect();
+    let all_h: Vec<Affine> = full.H(8, 4).cloned().collect();
+    if all_g.len() != 32 || all_h.len() != 32 { return (true, "[8,4]".into(), "full view has the wrong length".into()); }
+    for n in 0..=8usize { for m in 0..=4usize {
+        let res = catch_unwind(AssertUnwindSafe(|| {
+            let mut want_g = vec![]; let mut want_h = vec![];
+            for j in 0..m { for i in 0..n { want_g.push(all_g[j * 8 + i]); want_h.push(all_h[j * 8 + i]); } }
+            let got_g: Vec<Affine> = full.G(n, m).cloned().collect();
+            let got_h: Vec<Affine> = full.H(n, m).cloned().collect();
+            got_g == want_g && got_h == want_h
+        }));
+        match res { Err(_) => return (true, format!("[{},{}]", n, m), format!("aggregated view G/H({}, {}) panicked", n, m)),
+                    Ok(false) => return (true, format!("[{},{}]", n, m), format!("G/H({}, {}) is not the party-major list of the first {} generators of the first {} parties", n, m, n, m)), _ => {} }
+    } }
+    for steps in [vec![16usize, 32, 64], vec![8, 24, 64], vec![1, 2, 3, 64], vec![64]] {
+        let mut g = BulletproofGens::<Affine>::new(steps[0], 2);
+        for c in steps.iter().skip(1) { g.increase_capacity(*c); }
+        let direct = BulletproofGens::<Affine>::new(64, 2);
+        let a: Vec<Affine> = g.G(64, 2).cloned().collect(); let b: Vec<Affine> = direct.G(64, 2).cloned().collect();
+        let c: Vec<Affine> = g.H(64, 2).cloned().collect(); let d: Vec<Affine> = direct.H(64, 2).cloned().collect();
+        if a != b || c != d { return (true, format!("{:?}", steps), format!("generators after growing through capacities {:?} differ from BulletproofGens::new(64, 2)", steps)); }
+        let mut all: Vec<Affine> = a.into_iter().chain(c.into_iter()).collect();
+        let total = all.len(); all.sort_by_key(|p| format!("{:?}", p)); all.dedup();
+        if all.len() != total || total != 256 { return (true, format!("{:?}", steps), "a generator is repeated or missing".into()); }
+    }
+    (false, "null".into(), "aggregated views for n in 0..8 x m in 0..4; four growth histories up to capacity 64 against direct construction; distinctness".into())
+}
+
 // ---- C11: size law, strict prefixes rejected with FormatError, byte-exact round trip ----
 fn c11() -> (bool, String, String) {
     let (pt, sc) = (33usize, 32usize);
@@ -187,7 +259,11 @@ fn lc(e: &E, v: &[Variable<Fr>]) -> LinearCombination<Fr> { match e {
     E::Collect(ts, owned) => { let l: Vec<(Variable<Fr>, Fr)> = ts.iter().map(|(i, c)| (if *i == 3 { Variable::One() } else { v[*i] }, fr(*c))).collect();
         if *owned { l.into_iter().collect() } else { l.iter().collect() } },
     E::Zero => LinearCombination::default(), E::Var(i) => v[*i].into(), E::Const(c) => fr(*c).into(),
-    E::Add(a, b) => lc(a, v) + lc(b, v), E::Sub(a, b) => lc(a, v) - lc(b, v), E::Neg(a) => -lc(a, v), E::Mul(a, k) => lc(a, v) * fr(*k) } }
+    // a bare variable on the left uses the Variable-level operators
+    E::Add(a, b) => match &**a { E::Var(i) => v[*i] + lc(b, v), _ => lc(a, v) + lc(b, v) },
+    E::Sub(a, b) => match &**a { E::Var(i) => v[*i] - lc(b, v), _ => lc(a, v) - lc(b, v) },
+    E::Neg(a) => match &**a { E::Var(i) => -v[*i], _ => -lc(a, v) },
+    E::Mul(a, k) => match &**a { E::Var(i) => v[*i] * fr(*k), _ => lc(a, v) * fr(*k) } } }
 fn c15_case(seed: u64) -> Option<String> {
     let mut r = rng(seed);
     let e = gen(&mut r, 3);
@@ -416,6 +492,8 @@ fn main() {
     let (found, input, observed) = match prop.as_str() {
         "C01" => c01(rep.filter(|v| v.len() == 3).map(|v| (v[0] as usize, v[1] as usize, v[2] as usize))),
         "C02" => c02(rep.filter(|v| v.len() == 5).map(|v| (v[0] as usize, v[1] as usize, v[2] as usize, v[3] as usize, v[4] as usize))),
+        "C07" => c07(),
+        "C12" => c12(),
         "C08" => c08(rep.filter(|v| v.len() == 3).map(|v| (v[0] as usize, v[1] as usize, v[2] as usize))),
         "C11" => c11(),
         "C13" => c13(),
